@@ -10,7 +10,7 @@ import os
 import shutil
 from pathlib import Path
 
-from sim import boot, rng as R, workload, cvcase, driver
+from sim import boot, rng as R, workload, cvcase, driver, hyprun
 
 boot.boot()
 
@@ -494,7 +494,8 @@ def apply_ops(ctx, ops):
     return sim
 
 
-def make_machine(ctx, trace_box, stats_box, sources):
+def make_machine(ctx, trace_box, stats_box, sources, log=None):
+    log = log or hyprun.HistoryLog()
     which = st.sampled_from(['tx', 'gene'])
     idx = st.integers(0, 40)
 
@@ -502,14 +503,18 @@ def make_machine(ctx, trace_box, stats_box, sources):
         def __init__(self):
             super().__init__()
             self.sim = Sim(ctx)
-            self.trace = []
+            self.trace = log.new_trace()
             trace_box[0] = self.trace
             stats_box.append(self.sim.stats)
             self.ready = False
 
         def do(self, op):
             self.trace.append(list(op))
-            self.sim.apply(op)
+            try:
+                self.sim.apply(op)
+            except Violation as v:
+                log.note(v)
+                raise
 
         @initialize(gs=st.integers(1, 12), ts=st.integers(1, 12), via_idx=st.booleans(), flag=st.booleans(),
                     source=st.sampled_from(sources))
@@ -620,25 +625,22 @@ def run_case(seed, task, tier):
     with cvcase.Scratch('c11_') as wd:
         ctx = Ctx(texts, wd, demo=demo)
         sources = [None] if demo else [None, 'GENCODE', 'ENSEMBL']
-        machine = make_machine(ctx, trace_box, stats_box, sources)
+        log = hyprun.HistoryLog()
+        machine = make_machine(ctx, trace_box, stats_box, sources, log)
         hs = R.derive(seed, ENGINE, idx, 'hyp') % (2 ** 32)
         viol = None
         try:
-            run_state_machine_as_test(
-                hseed(hs)(machine),
-                settings=settings(max_examples=n_examples, stateful_step_count=40, database=None, deadline=None,
-                                  report_multiple_bugs=False, suppress_health_check=list(HealthCheck),
-                                  verbosity=Verbosity.quiet))
-        except Violation as v:
-            viol = v
+            res = hyprun.run(machine, hs, n_examples, 40, log, Violation)
+            if res is not None:
+                viol_kind, viol = res
         finally:
             GP.GENE_DICT_CACHE_SIZE, GP.TX_DICT_CACHE_SIZE = ORIG_CACHE
         if viol is not None:
             rep = {'property': PROPERTY, 'engine': ENGINE, 'clause': viol.clause, 'signature': viol.signature,
                    'detail': viol.detail, 'seed': seed, 'case': idx, 'hclass': task['hclass'],
-                   'hashseed': driver.HASH_CLASSES[task['hclass']], 'texts': texts, 'demo': demo,
-                   'ops': trace_box[0], 'shrunk_by': 'hypothesis'}
-            rep['digest'] = R.digest([seed, idx, viol.clause, trace_box[0]])
+                   'hashseed': driver.HASH_CLASSES[task['hclass']], 'texts': texts, 'demo': demo}
+            rep.update(hyprun.report_fields(viol_kind, log, trace_box[0]))
+            rep['digest'] = R.digest([seed, idx, viol.clause, rep['ops']])
             out['violations'].append(rep)
     probes = out['probes']
     for s in stats_box:
@@ -674,9 +676,8 @@ def run_case(seed, task, tier):
 def replay(rep):
     with cvcase.Scratch('c11r_') as wd:
         ctx = Ctx(rep['texts'], wd, demo=rep.get('demo', False))
-        try:
-            apply_ops(ctx, rep['ops'])
-        except Violation as v:
+        v = hyprun.replay_with_histories(rep, lambda ops: apply_ops(ctx, ops), Violation)
+        if v is not None:
             return [dict(rep, clause=v.clause, signature=v.signature, detail=v.detail)]
     return []
 
@@ -684,4 +685,4 @@ def replay(rep):
 def shrink_candidates(rep):
     ops = rep['ops']
     for i in range(len(ops) - 1, 0, -1):
-        yield dict(rep, ops=ops[:i] + ops[i + 1:])
+        yield dict(rep, ops=ops[:i] + ops[i + 1:], histories=None)
